@@ -120,6 +120,12 @@ def context_cases(rnd):
         cases.append(("mark-name", "NAME", n, '<v mark:%s="1"/>' % n, n, None))
         cases.append(("data-name", "NAME", n, '<v data:%s="1"/>' % n, n, None))
         cases.append(("generic-name", "NAME", n, '<v generic:%s="x"/>' % n, n, None))
+    # names of the camel-cased families: a dash makes the character right after it a capital (if it is a letter) and nothing else
+    for n, want in (("ab-cd", "abCd"), ("row-2nd", "row2nd"), ("a-_b", "a_b"), ("value-2x-y", "value2xY"), ("a--b", "aB"), ("a-b-", "aB"), ("x-1-2z", "x12z")):
+        cases.append(("data-name", "CAMEL", n, '<v data-%s="1"/>' % n, want, None))
+        cases.append(("model-name", "CAMEL", n, '<v model:%s="{{ a }}"/>' % n, want, None))
+        cases.append(("change-name", "CAMEL", n, '<v change:%s="{{ a }}"/>' % n, want, None))
+        cases.append(("worklet-name", "CAMEL", n, '<v worklet:%s="w"/>' % n, want, None))
     for k in ("ab", "$a", "_1", "if", "class", "__proto__x", "constructor"):
         cases.append(("object-key", "KEY", k, '<v a="{{ {%s: 1} }}"/>' % k, k, None))
         cases.append(("member-name", "KEY", k, '<v a="{{ o.%s }}"/>' % k, "M", {"o": {k: "M"}}))
